@@ -186,6 +186,22 @@ def check_settings(res):
             out, err, exc = sess.run(f'.set {name}{arg}')
             if exc is not None or not err.strip() or out.strip() or snap() != before:
                 res.violation(f'h19:set-unknown:{name}', 'unknown settings produce an error message and change nothing', {'setting': name, 'arg': arg}, (out, err, repr(exc)), 'error, unchanged')
+    # values are taken as typed (shell quoting aside): `#` is an ordinary character, in values and in names
+    for line, name, want in [('.set nullvalue #N/A', 'nullvalue', '#N/A'), ('.set nullvalue n#a', 'nullvalue', 'n#a'), ('.set nullvalue "# x"', 'nullvalue', '# x'), ('.set nullvalue -', 'nullvalue', '-')]:
+        res.case(('set-unquoted', line))
+        before = snap()
+        out, err, exc = sess.run(line)
+        exp = dict(before)
+        exp[name] = want
+        if exc is not None or err.strip() or snap() != exp:
+            res.violation('h19:set-unquoted:' + line, '.set NAME VALUE stores the value as typed', {'line': line}, (snap().get(name), err, repr(exc)), want)
+    for line in ('.set boxed true # x', '.set #boxed', '.set #boxed true', '.set boxed#', '.set nullvalue a # b'):
+        res.case(('set-hash-error', line))
+        before = snap()
+        out, err, exc = sess.run(line)
+        if exc is not None or not err.strip() or out.strip() or snap() != before:
+            res.violation('h19:set-hash-error:' + line, 'too many arguments and unknown names produce an error message and change nothing', {'line': line}, (out[:80], err[:120], repr(exc), snap() == before), 'error, unchanged')
+    sess.run('.set nullvalue ""')
     # dispatch
     for line, kind in [('.nosuchcommand', 'error'), ('.select 1', 'error'), ('.SELECT account', 'error'), ('.tables', 'out'), ('.describe postings', 'out'), ('.explain SELECT 1', 'any'),
                        ('.set', 'out'), ('.set a b c', 'error'), ('.help', 'any'), ('.errors', 'any'), ('.parse SELECT 1', 'any')]:
